@@ -63,8 +63,8 @@ Definition upload_step (w : world) (t : list name) (it : up_item) : world * up_r
   else
     let pi := parent p ++ [incomplete_name (last p [])] in
     match w !! pi with
-    | Some (NFile part) =>                               (* a partial upload is there: resume it, then publish it *)
-        (<[p := NFile (part ++ u_data it)]> (delete pi w), UResume (len part))
+    | Some (NFile part) =>                               (* a partial upload is there: the client sends the rest *)
+        (<[p := NFile (part ++ dropN (len part) (u_data it))]> (delete pi w), UResume (len part))
     | Some _ => (w, UFail)
     | None =>
         match w !! p with
@@ -83,6 +83,23 @@ Fixpoint upload (w : world) (t : list name) (its : list up_item) : world * list 
                | UFail => (w1, [UFail])
                | _ => let '(w2, as_) := upload w1 t r in (w2, a :: as_)
                end
+  end.
+(* the connection dies while the data of item [it] is arriving, after m of the bytes the client still had to send:
+   what arrived is kept in the partial file; NOTHING is published under the final name (as repaired) *)
+Definition upload_cut_step (w : world) (t : list name) (it : up_item) (m : nat) : world :=
+  let p := t ++ u_path it in
+  let pi := parent p ++ [incomplete_name (last p [])] in
+  if u_isdir it then fst (upload_step w t it) else
+  match w !! pi with
+  | Some (NFile part) => <[pi := NFile (part ++ firstn m (dropN (len part) (u_data it)))]> w
+  | Some _ => w
+  | None => match w !! p with
+            | Some _ => w
+            | None => match w !! (parent p) with
+                      | Some NDir => <[pi := NFile (firstn m (u_data it))]> w
+                      | _ => w
+                      end
+            end
   end.
 (* the stream a client sends for a tree: its items in walk order *)
 Definition stream_of (fuel : nat) (w : world) (root : list name) : list up_item :=
